@@ -447,3 +447,5 @@ add("precondition-scale-not-protected-against-coincident-points", F, ["C07"], "d
 add("s-precondition-scale-floored", S, ["C07", "C16"], "dfols/model.py",
     "            if approx_delta == 0.0:\n                approx_delta = 1.0  # all points coincide (to rounding): nothing to scale by; the singular system is reported by the solve\n",
     "            if not approx_delta > 0.0:\n                approx_delta = 1.0\n")
+add("slow-history-range-includes-zero", F, ["C07"], "dfols/params.py", "type_str, nonetype_ok, lower, upper = 'int', False, 1, None  # the average decrease is taken over this many iterations (a divisor)",
+    "type_str, nonetype_ok, lower, upper = 'int', False, 0, None", "C07-14")
